@@ -356,6 +356,9 @@ CORPUS = [
     # trailing / inner empty path stems are the same key
     {"kind": "history", "cfg": CONFIGS[0], "ops": [["set", "http://a.com//x/", 1], ["set", "http://a.com/x", 2], ["set", "http://a.com/", 3], ["set", "http://a.com", 4]], "qs": "small"},
     {"kind": "history", "cfg": CONFIGS[2], "ops": [["set", "http://françai.se", 1]], "qs": ["http://xn--franai-zua.se", "http://françai.se/x"], "ql": []},
+    # FX-C12-df640b6: suffix-aware trie, bracketed literals whose text ends with a public suffix (one stem each)
+    {"kind": "history", "cfg": CONFIGS[1], "ops": [["set", "http://[v1.a.com]/x", 1], ["set", "http://[::1%a.co.uk]", 2], ["set", "http://a.com", 3]],
+     "qs": ["http://[v1.a.com]/x/y", "http://[v1.a.com]", "http://[::1%a.co.uk]/p", "http://b.a.com", "http://co.uk"], "ql": []},
 ]
 
 
